@@ -1,6 +1,509 @@
-//! engines for the MQTT v3 codec (stub)
-use super::Engine;
+//! engines for the MQTT v3.1.1 codec: "dec3", "enc3", "varint"
+//!
+//! Dump grammar (flat, self-delimiting; printed by dec3, read by enc3) -- see coq/Model/EnginesV3.v:
+//!   packet   ::= 1 connect | 2 connack | 4 id | 5 id | 6 id | 7 id | 8 id n (str qos)^n | 9 id n rc^n
+//!              | 10 id n str^n | 11 id | 12 | 13 | 14
+//!   connect  ::= clean_session keep_alive opt(lastwill) str(client_id) opt(str username) opt(str password)
+//!   lastwill ::= qos retain str(topic) str(message)
+//!   connack  ::= return_code session_present
+//!   publish  ::= dup retain qos str(topic) opt(id) payload_size
+//!   str ::= len bytes..   opt(X) ::= 0 | 1 X
+use std::num::NonZeroU16;
 
-pub fn lookup(_name: &str) -> Option<Engine> {
-    None
+use ntex_bytes::{BytePages, ByteString, Bytes, BytesMut};
+use ntex_codec::{Decoder, Encoder};
+use ntex_mqtt::error::{DecodeError, EncodeError};
+use ntex_mqtt::v3::codec::{
+    Codec, Connect, ConnectAck, ConnectAckReason, Decoded, Encoded, LastWill, Packet, Publish,
+    SubscribeReturnCode,
+};
+use ntex_mqtt::QoS;
+
+use super::Engine;
+use crate::{Fields, nums_of};
+
+pub fn lookup(name: &str) -> Option<Engine> {
+    match name {
+        "dec3" => Some(dec3),
+        "enc3" => Some(enc3),
+        "varint" => Some(varint),
+        _ => None,
+    }
+}
+
+const U32MAX: u64 = u32::MAX as u64;
+
+fn bad() -> Fields {
+    vec![vec![97]]
+}
+
+fn de_code(e: &DecodeError) -> u64 {
+    match e {
+        DecodeError::InvalidProtocol => 1,
+        DecodeError::InvalidLength => 2,
+        DecodeError::MalformedPacket => 3,
+        DecodeError::UnsupportedProtocolLevel => 4,
+        DecodeError::ConnectReservedFlagSet => 5,
+        DecodeError::ConnAckReservedFlagSet => 6,
+        DecodeError::InvalidClientId => 7,
+        DecodeError::UnsupportedPacketType => 8,
+        DecodeError::PacketIdRequired => 9,
+        DecodeError::MaxSizeExceeded { .. } => 10,
+        DecodeError::Utf8Error => 11,
+        DecodeError::UnexpectedPayload => 12,
+    }
+}
+
+fn ee_code(e: &EncodeError) -> u64 {
+    match e {
+        EncodeError::OverMaxPacketSize => 21,
+        EncodeError::OverPublishSize => 22,
+        EncodeError::PublishIncomplete => 23,
+        EncodeError::InvalidLength => 24,
+        EncodeError::MalformedPacket => 25,
+        EncodeError::PacketIdRequired => 26,
+        EncodeError::UnexpectedPayload => 27,
+        EncodeError::ExpectPayload => 28,
+        EncodeError::UnsupportedVersion => 29,
+    }
+}
+
+fn bytes_checked(f: &[u64]) -> Option<Vec<u8>> {
+    let mut v = Vec::with_capacity(f.len());
+    for b in f {
+        if *b > 255 {
+            return None;
+        }
+        v.push(*b as u8);
+    }
+    Some(v)
+}
+
+// ------------------------------------------------------------------ printing
+fn dump_str(s: &[u8], out: &mut Vec<u64>) {
+    out.push(s.len() as u64);
+    out.extend(nums_of(s));
+}
+
+fn qos_n(q: QoS) -> u64 {
+    u64::from(u8::from(q))
+}
+
+fn dump_publish(p: &Publish, out: &mut Vec<u64>) {
+    out.push(u64::from(p.dup));
+    out.push(u64::from(p.retain));
+    out.push(qos_n(p.qos));
+    dump_str(p.topic.as_bytes(), out);
+    match p.packet_id {
+        None => out.push(0),
+        Some(i) => {
+            out.push(1);
+            out.push(u64::from(i.get()));
+        }
+    }
+    out.push(u64::from(p.payload_size));
+}
+
+fn dump_packet(p: &Packet, out: &mut Vec<u64>) {
+    match p {
+        Packet::Connect(c) => {
+            out.push(1);
+            out.push(u64::from(c.clean_session));
+            out.push(u64::from(c.keep_alive));
+            match &c.last_will {
+                None => out.push(0),
+                Some(w) => {
+                    out.push(1);
+                    out.push(qos_n(w.qos));
+                    out.push(u64::from(w.retain));
+                    dump_str(w.topic.as_bytes(), out);
+                    dump_str(&w.message, out);
+                }
+            }
+            dump_str(c.client_id.as_bytes(), out);
+            match &c.username {
+                None => out.push(0),
+                Some(s) => {
+                    out.push(1);
+                    dump_str(s.as_bytes(), out);
+                }
+            }
+            match &c.password {
+                None => out.push(0),
+                Some(s) => {
+                    out.push(1);
+                    dump_str(s, out);
+                }
+            }
+        }
+        Packet::ConnectAck(a) => {
+            out.push(2);
+            out.push(u64::from(u8::from(a.return_code)));
+            out.push(u64::from(a.session_present));
+        }
+        Packet::PublishAck { packet_id } => out.extend([4, u64::from(packet_id.get())]),
+        Packet::PublishReceived { packet_id } => out.extend([5, u64::from(packet_id.get())]),
+        Packet::PublishRelease { packet_id } => out.extend([6, u64::from(packet_id.get())]),
+        Packet::PublishComplete { packet_id } => out.extend([7, u64::from(packet_id.get())]),
+        Packet::Subscribe { packet_id, topic_filters } => {
+            out.extend([8, u64::from(packet_id.get()), topic_filters.len() as u64]);
+            for (t, q) in topic_filters {
+                dump_str(t.as_bytes(), out);
+                out.push(qos_n(*q));
+            }
+        }
+        Packet::SubscribeAck { packet_id, status } => {
+            out.extend([9, u64::from(packet_id.get()), status.len() as u64]);
+            for s in status {
+                out.push(match s {
+                    SubscribeReturnCode::Success(q) => qos_n(*q),
+                    SubscribeReturnCode::Failure => 128,
+                });
+            }
+        }
+        Packet::Unsubscribe { packet_id, topic_filters } => {
+            out.extend([10, u64::from(packet_id.get()), topic_filters.len() as u64]);
+            for t in topic_filters {
+                dump_str(t.as_bytes(), out);
+            }
+        }
+        Packet::UnsubscribeAck { packet_id } => out.extend([11, u64::from(packet_id.get())]),
+        Packet::PingRequest => out.push(12),
+        Packet::PingResponse => out.push(13),
+        Packet::Disconnect => out.push(14),
+    }
+}
+
+// ------------------------------------------------------------------ parsing
+struct Cur<'a> {
+    s: &'a [u64],
+    pos: usize,
+}
+
+impl Cur<'_> {
+    fn left(&self) -> usize {
+        self.s.len() - self.pos
+    }
+    fn num(&mut self, max: u64) -> Option<u64> {
+        let v = *self.s.get(self.pos)?;
+        if v > max {
+            return None;
+        }
+        self.pos += 1;
+        Some(v)
+    }
+    fn boolean(&mut self) -> Option<bool> {
+        Some(self.num(1)? == 1)
+    }
+    fn qos(&mut self) -> Option<QoS> {
+        QoS::try_from(self.num(2)? as u8).ok()
+    }
+    fn id(&mut self) -> Option<NonZeroU16> {
+        NonZeroU16::new(self.num(65535)? as u16)
+    }
+    fn bytes(&mut self) -> Option<Bytes> {
+        let n = self.num(u64::MAX)?;
+        if n > self.left() as u64 {
+            return None;
+        }
+        let n = n as usize;
+        let b = bytes_checked(&self.s[self.pos..self.pos + n])?;
+        self.pos += n;
+        Some(Bytes::from(b))
+    }
+    fn string(&mut self) -> Option<ByteString> {
+        ByteString::try_from(self.bytes()?).ok()
+    }
+    fn opt<T>(&mut self, f: impl Fn(&mut Self) -> Option<T>) -> Option<Option<T>> {
+        match self.num(1)? {
+            0 => Some(None),
+            _ => Some(Some(f(self)?)),
+        }
+    }
+    fn count(&mut self) -> Option<usize> {
+        let n = self.num(u64::MAX)?;
+        if n > self.left() as u64 {
+            return None;
+        }
+        Some(n as usize)
+    }
+    fn publish(&mut self) -> Option<Publish> {
+        let dup = self.boolean()?;
+        let retain = self.boolean()?;
+        let qos = self.qos()?;
+        let topic = self.string()?;
+        let packet_id = self.opt(Self::id)?;
+        let payload_size = self.num(U32MAX)? as u32;
+        Some(Publish { dup, retain, qos, topic, packet_id, payload_size })
+    }
+    fn packet(&mut self) -> Option<Packet> {
+        match self.num(u64::MAX)? {
+            1 => {
+                let clean_session = self.boolean()?;
+                let keep_alive = self.num(65535)? as u16;
+                let last_will = self.opt(|c| {
+                    let qos = c.qos()?;
+                    let retain = c.boolean()?;
+                    let topic = c.string()?;
+                    let message = c.bytes()?;
+                    Some(LastWill { qos, retain, topic, message })
+                })?;
+                let client_id = self.string()?;
+                let username = self.opt(Self::string)?;
+                let password = self.opt(Self::bytes)?;
+                Some(Packet::Connect(Box::new(Connect {
+                    clean_session,
+                    keep_alive,
+                    last_will,
+                    client_id,
+                    username,
+                    password,
+                })))
+            }
+            2 => {
+                let return_code = ConnectAckReason::try_from(self.num(6)? as u8).ok()?;
+                let session_present = self.boolean()?;
+                Some(Packet::ConnectAck(ConnectAck { return_code, session_present }))
+            }
+            4 => Some(Packet::PublishAck { packet_id: self.id()? }),
+            5 => Some(Packet::PublishReceived { packet_id: self.id()? }),
+            6 => Some(Packet::PublishRelease { packet_id: self.id()? }),
+            7 => Some(Packet::PublishComplete { packet_id: self.id()? }),
+            8 => {
+                let packet_id = self.id()?;
+                let n = self.count()?;
+                let mut topic_filters = Vec::new();
+                for _ in 0..n {
+                    let t = self.string()?;
+                    let q = self.qos()?;
+                    topic_filters.push((t, q));
+                }
+                Some(Packet::Subscribe { packet_id, topic_filters })
+            }
+            9 => {
+                let packet_id = self.id()?;
+                let n = self.count()?;
+                let mut status = Vec::new();
+                for _ in 0..n {
+                    status.push(match self.num(128)? {
+                        0 => SubscribeReturnCode::Success(QoS::AtMostOnce),
+                        1 => SubscribeReturnCode::Success(QoS::AtLeastOnce),
+                        2 => SubscribeReturnCode::Success(QoS::ExactlyOnce),
+                        128 => SubscribeReturnCode::Failure,
+                        _ => return None,
+                    });
+                }
+                Some(Packet::SubscribeAck { packet_id, status })
+            }
+            10 => {
+                let packet_id = self.id()?;
+                let n = self.count()?;
+                let mut topic_filters = Vec::new();
+                for _ in 0..n {
+                    topic_filters.push(self.string()?);
+                }
+                Some(Packet::Unsubscribe { packet_id, topic_filters })
+            }
+            11 => Some(Packet::UnsubscribeAck { packet_id: self.id()? }),
+            12 => Some(Packet::PingRequest),
+            13 => Some(Packet::PingResponse),
+            14 => Some(Packet::Disconnect),
+            _ => None,
+        }
+    }
+}
+
+// ------------------------------------------------------------------ dec3
+fn state_tag(codec: &Codec) -> u64 {
+    // the decoder state is private: read it from the Debug rendering
+    let s = format!("{codec:?}");
+    if s.contains("value: FrameHeader") {
+        0
+    } else if s.contains("value: Frame(") {
+        1
+    } else if s.contains("value: PublishHeader(") {
+        2
+    } else if s.contains("value: PublishPayload(") {
+        3
+    } else {
+        96
+    }
+}
+
+/// case: [max_size, min_chunk] ; [cut positions] ; [stream bytes]
+fn dec3(c: &Fields) -> Fields {
+    if c.len() != 3 || c[0].len() != 2 || c[0][0] > U32MAX || c[0][1] > U32MAX {
+        return bad();
+    }
+    let Some(stream) = bytes_checked(&c[2]) else { return bad() };
+    let codec = Codec::new();
+    codec.set_max_size(c[0][0] as u32);
+    codec.set_min_chunk_size(c[0][1] as u32);
+
+    // pieces: cut positions are absolute offsets, forced monotone and clamped
+    let mut pieces: Vec<&[u8]> = Vec::new();
+    let mut prev: u64 = 0;
+    let mut rest: &[u8] = &stream;
+    for cut in &c[1] {
+        let cc = (*cut).max(prev);
+        let k = (cc - prev).min(rest.len() as u64) as usize;
+        let (a, b) = rest.split_at(k);
+        pieces.push(a);
+        rest = b;
+        prev = cc;
+    }
+    pieces.push(rest);
+
+    let mut out: Fields = Vec::new();
+    let mut buf = BytesMut::new();
+    for p in pieces {
+        buf.extend_from_slice(p);
+        let mut guard = buf.len() + 2;
+        loop {
+            if guard == 0 {
+                return vec![vec![95]]; // decode keeps producing items without consuming input
+            }
+            guard -= 1;
+            match codec.decode(&mut buf) {
+                Ok(Some(Decoded::Packet(pkt, rl))) => {
+                    let mut f = vec![1, u64::from(rl)];
+                    dump_packet(&pkt, &mut f);
+                    out.push(f);
+                }
+                Ok(Some(Decoded::Publish(pkt, payload, rl))) => {
+                    let mut f = vec![2, u64::from(rl)];
+                    dump_publish(&pkt, &mut f);
+                    f.push(payload.len() as u64);
+                    f.extend(nums_of(&payload));
+                    out.push(f);
+                }
+                Ok(Some(Decoded::PayloadChunk(payload, eof))) => {
+                    let mut f = vec![3, u64::from(eof)];
+                    f.extend(nums_of(&payload));
+                    out.push(f);
+                }
+                Ok(None) => break,
+                Err(e) => {
+                    out.push(vec![4, de_code(&e)]);
+                    return out;
+                }
+            }
+        }
+    }
+    out.push(vec![5, buf.len() as u64, state_tag(&codec)]);
+    out
+}
+
+// ------------------------------------------------------------------ enc3
+fn parse_op(f: &[u64]) -> Option<Encoded> {
+    let mut c = Cur { s: f, pos: 0 };
+    match c.num(3)? {
+        1 => {
+            let p = c.packet()?;
+            if c.left() != 0 {
+                return None;
+            }
+            Some(Encoded::Packet(p))
+        }
+        2 => {
+            let has_buf = c.boolean()?;
+            let p = c.publish()?;
+            if has_buf {
+                let b = bytes_checked(&f[c.pos..])?;
+                Some(Encoded::Publish(p, Some(Bytes::from(b))))
+            } else if c.left() != 0 {
+                None
+            } else {
+                Some(Encoded::Publish(p, None))
+            }
+        }
+        3 => Some(Encoded::PayloadChunk(Bytes::from(bytes_checked(&f[1..])?))),
+        _ => None,
+    }
+}
+
+/// the remaining length written at the start of `b` (the size the encoder claims)
+fn wire_claim(b: &[u8]) -> u64 {
+    if b.len() < 2 {
+        return 0;
+    }
+    match ntex_mqtt::verif_hooks::decode_variable_length(&b[1..]) {
+        Ok(Some((v, _))) => u64::from(v),
+        _ => 96,
+    }
+}
+
+/// case: [max_size] ; op ; op ; ...
+fn enc3(c: &Fields) -> Fields {
+    if c.is_empty() || c[0].len() != 1 || c[0][0] > U32MAX {
+        return bad();
+    }
+    let mut ops = Vec::new();
+    for f in &c[1..] {
+        match parse_op(f) {
+            Some(op) => ops.push(op),
+            None => return bad(),
+        }
+    }
+    let codec = Codec::new();
+    codec.set_max_size(c[0][0] as u32);
+    let mut dst = BytePages::default();
+    let mut expected: Vec<u8> = Vec::new(); // concatenation of what successful operations appended
+    let mut out: Fields = Vec::new();
+    for op in ops {
+        let is_chunk = matches!(op, Encoded::PayloadChunk(_));
+        let before = dst.len();
+        let res = codec.encodev(op, &mut dst);
+        let after = dst.len();
+        match res {
+            Ok(()) => {
+                let all = dst.clone().freeze();
+                if after < before || all.len() != after {
+                    return vec![vec![96]];
+                }
+                let app = &all[before..];
+                let mut f = vec![0, if is_chunk { 0 } else { wire_claim(app) }];
+                f.extend(nums_of(app));
+                expected.extend_from_slice(app);
+                out.push(f);
+            }
+            Err(e) => {
+                out.push(vec![1, ee_code(&e), (after as u64).wrapping_sub(before as u64)]);
+                if after >= before {
+                    // whatever the failed operation left behind stays in the buffer
+                    let all = dst.clone().freeze();
+                    expected.extend_from_slice(&all[before..]);
+                }
+            }
+        }
+    }
+    // the buffer as a whole must be the concatenation of the pieces observed
+    let all = dst.freeze();
+    if all.as_ref() != expected.as_slice() {
+        return vec![vec![96]];
+    }
+    out
+}
+
+// ------------------------------------------------------------------ varint
+/// case `[n]` -> bytes written by write_variable_length; case `[] ; [bytes]` -> decode_variable_length
+fn varint(c: &Fields) -> Fields {
+    if c.len() == 1 && c[0].len() == 1 {
+        if c[0][0] > U32MAX {
+            return bad();
+        }
+        let mut dst = BytePages::default();
+        ntex_mqtt::verif_hooks::write_variable_length(c[0][0] as u32, &mut dst);
+        let b = dst.freeze();
+        return vec![nums_of(&b)];
+    }
+    if c.len() == 2 && c[0].is_empty() {
+        let Some(s) = bytes_checked(&c[1]) else { return bad() };
+        return match ntex_mqtt::verif_hooks::decode_variable_length(&s) {
+            Ok(Some((v, consumed))) => vec![vec![0, u64::from(v), consumed as u64]],
+            Ok(None) => vec![vec![1]],
+            Err(e) => vec![vec![2, de_code(&e)]],
+        };
+    }
+    bad()
 }
